@@ -271,8 +271,68 @@ def debug_diff_specs():
     ]
 
 
+def run_debug_sequence(case):
+    """debug mode never changes the verdict, also for the requests that FOLLOW a solve on the same solver object
+    (solve again, find another solution): the same sequence is run with debug on and off and the verdicts compared"""
+    acc = common.Acc(PREFIXES)
+    spec, cfg = case["spec"], case["solver"]
+    seqs = {}
+    for dbg in (False, True):
+        ins.reset_case()
+        verdicts = []
+        try:
+            with warnings.catch_warnings():
+                warnings.simplefilter("ignore")
+                b = bld.build(spec)
+                solver = ps.SchedulingSolver(problem=b.problem, debug=dbg, max_time=30, **cfg)
+                for op in case["ops"]:
+                    nchk = len(ins.check_results())
+                    sol = solver.solve() if op == "S" else solver.find_another_solution()
+                    acc.executions += 1
+                    new = ins.check_results()[nchk:]
+                    if sol:
+                        verdicts.append("sat")
+                        rep, _P = rs.evaluate_observed(spec, obs.observe(b, sol, solver._model))
+                        for cl, d in rep.failed():
+                            if cl.startswith(("C01.", "C02.", "C03.", "C04.", "C09.")):
+                                acc.violation("C19.debug_schedule_invalid", "admitted-invalid", {"clause": cl, "debug": dbg},
+                                              {"clause_detail": d, "ops": case["ops"]})
+                    else:
+                        verdicts.append("unsat" if new and new[-1] == "unsat" else "unknown")
+                        break
+        except Exception as exc:  # pylint: disable=broad-except
+            acc.violation("C19.exception", "exception", {"exc": type(exc).__name__, "debug": dbg},
+                          {"msg": str(exc)[:300], "ops": case["ops"]})
+            verdicts.append("exception")
+        seqs[dbg] = verdicts
+    acc.sigs.add(common.h([common.h(spec), cfg, case["ops"]]))
+    if "unknown" in seqs[False] + seqs[True] or "exception" in seqs[False] + seqs[True]:
+        if "unknown" in seqs[False] + seqs[True]:
+            acc.inconclusive.append("unknown")
+        return acc.result()
+    same = seqs[False] == seqs[True]
+    acc.count(acc.clauses, f"C19.verdict_sequence_same_as_non_debug:{'T' if same else 'F'}")
+    if not same:
+        acc.violation("C19.debug_changes_verdict", "differs", {"debug": "/".join(seqs[True]), "plain": "/".join(seqs[False]),
+                                                               "sequence": True},
+                      {"ops": case["ops"], "config": cfg})
+    acc.sample = {"spec_objectives": spec.get("objectives"), "ops": case["ops"], "plain": seqs[False], "debug": seqs[True]}
+    return acc.result()
+
+
 def generate(tier, seed):
     cases = []
+    for k in range(8 if tier == "quick" else 60):
+        rng = random.Random(f"{seed}-c19-seq-{k}")
+        spec = make_spec("none", [], rng.randint(0, 4), rng, feasible=True)
+        if k % 4 != 3:
+            spec["objectives"] = [{"kind": ("Makespan", "Flowtime", "StartLatest")[k % 3]}]
+        for cfg in ({"optimizer": "incremental"}, {"optimizer": "optimize", "optimize_priority": "lex"}):
+            if cfg["optimizer"] == "optimize" and not spec.get("objectives"):
+                continue
+            for ops in (["S", "S"], ["S", "A", "S"], ["S", "A", "A"]):
+                cases.append({"cid": f"sequence-{k}-{cfg['optimizer']}-{''.join(ops)}", "family": "debug-sequence",
+                              "kind": "debugseq", "spec": spec, "solver": cfg, "ops": ops})
     for i, spec in enumerate(debug_diff_specs()):
         cases.append({"cid": f"debugdiff-{i}", "family": "debug-differential", "kind": "debugdiff", "spec": spec,
                       "limit": 30 if tier == "quick" else 300, "rng": seed + i})
@@ -307,6 +367,8 @@ def generate(tier, seed):
 def run_case(case):
     if case["kind"] == "debugdiff":
         return run_debug_diff(case)
+    if case["kind"] == "debugseq":
+        return run_debug_sequence(case)
     return run_diag(case)
 
 
